@@ -206,7 +206,8 @@ CHECKS = {
        "accept. A second harness does the same for trees: objects (properties, required), arrays (items as anyOf, minItems/maxItems), "
        "`or` alternatives, null/nullable (null as the one variation of a nullable root, also for `@a | @b` and `@a` shortcuts), quoted "
        "type-like keys, additionalProperties (false / a registered type) seen from the SAME Schema Object only, allOf as 'instance of "
-       "every referenced conversion', and references resolved to the conversions of the registered types (11 shapes, symbolic scalars). "
+       "every referenced conversion', two `or` alternatives of the same type, null examples under `or`, key shortcuts whose type is an "
+       "escaped string, an alias or a choice, and references resolved to the conversions of the registered types (15 shapes, symbolic scalars). "
        "`pattern`: for 10 concrete regex rules with escapes the keyword is one JSON string that decodes to exactly the rule's "
        "expression and matches the example.",
   note="Outside the claim: the JSON TEXT of the conversion (encoding/json reflection is not executed: well-formedness, key escaping, "
@@ -221,7 +222,9 @@ CHECKS = {
        "observables (error code, message, index, offending type; or example, used types, Len) are asserted equal, i.e. the solver "
        "decides the equality for all digit values; plus enum rules with two entries under two map orders; nodes carrying several "
        "offending rules (banned for a format type, or string rules on an integer), in the schema itself or inherited through allOf, "
-       "under 4 map orders; three repeated Example()/Check() calls on one object. GuessSchemaType under "
+       "under 4 map orders; three repeated Example()/Check() calls on one object; enum rule objects repeat their verdict (first call vs "
+       "later calls, 8 texts incl. ones refused after some values were read); three unreached types with broken allOf under map and "
+       "registration orders. GuessSchemaType under "
        "map orders is part of C20.",
   note="Map order and heap addresses are engine parameters / symbolic models, not Go's real randomisation; native confirmation of such "
        "a counterexample repeats the case up to 200 times. The OpenAPI Schema Object trees of the root and of every type are compared "
@@ -235,15 +238,20 @@ CHECKS = {
        "recent Put): every returned byte slice / list still equals the snapshot taken when it was returned, and every result equals "
        "the one obtained with the 'always New' pool model on fresh objects (what a fresh process computes), and every returned example "
        "is RFC 8259 JSON. A refused AddType (taken or invalid name) leaves UserTypeCollection, Check() and Example() as they were; the "
-       "OpenAPI conversion (struct level) leaves the AST intact.",
+       "OpenAPI conversion (struct level) leaves the AST intact. One type object shared by two schemas: after a first compile that fails "
+       "half-way (parent missing or not an object there) the second schema gets a fresh process's results; inherited by two heirs under "
+       "two names, the first heir and the type itself keep their origin marks. Regex examples do not depend on earlier objects "
+       "(sequential model of sync.Map for process-wide caches).",
   note="sync.Pool is modelled (LIFO / fresh), not executed; OpenAPI marshalers are outside (reflection).",
   ref="DESIGN.md §4 C10"),
  "C14": dict(
   text="Bounded symbolic model checking of layout independence: eight schema models (annotated number, string with an `or` rule, object "
        "with annotated members and a reference, array with a note and a type choice, members followed by user comments, a reference "
-       "to a named enum rule as last/only rule; digits, letters and notes symbolic; each model must be accepted on some path) are printed "
+       "to a named enum rule as last/only rule, allOf of two types with a reference as last member, a schema that is one reference; digits, "
+       "letters and notes symbolic; each of the ten models must be accepted on some path) are printed "
        "canonically and with ONE (quick) or TWO (thorough) layout dimensions changed - LF/CRLF/CR, indentation, blanks after colons, "
-       "blanks before annotations, blanks between a rule name and its colon, blanks before the closing brace of a rule set, // vs "
+       "blanks before annotations, blanks between a rule name and its colon, blanks before the closing brace of a rule set, the spelling "
+       "of the bar of a type choice (AST compared with blanks inside reference texts removed), list items of a rule on their own lines, // vs "
        "/* */, quoted vs bare rule names, # line comments and ### block comments, leading and "
        "trailing blank lines - with @u registered or not: same verdict and error code; when accepted the same AST, example and "
        "used-type list. A second harness (package jsoac) takes the same pairs with notes from a fixed list, also with /* */ notes "
